@@ -263,14 +263,9 @@ pub mod tuple {
             Ok(())
         }
 
-        /// (row xmin, delete mark, version counter of the newest version, number of versions)
-        pub fn header(&self) -> (u64, Option<u64>, u8, usize) {
-            (
-                self.tuple.xmin(),
-                self.tuple.xmax(),
-                self.tuple.version(),
-                self.tuple.num_versions_with(&self.schema).unwrap_or(0),
-            )
+        /// (row xmin, delete mark, version counter of the newest version)
+        pub fn header(&self) -> (u64, Option<u64>, u8) {
+            (self.tuple.xmin(), self.tuple.xmax(), self.tuple.version())
         }
     }
 }
